@@ -146,7 +146,12 @@ class ShuffleBase(Expr):
         ):
             if (
                 self.ignore_index
-                and self.method == "tasks"
+                and (
+                    # lowered shuffles have no ``method`` operand
+                    self.method == "tasks"
+                    if "method" in self._parameters
+                    else isinstance(self, TaskShuffle)
+                )
                 and isinstance(
                     parent, (DropDuplicates, NLargest, NSmallest, MemoryUsage)
                 )
